@@ -121,6 +121,28 @@ func (e *treeEngine) Generate(prop string, r *simrt.RNG, tier string, run int) *
 	if prop == "C26" || r.Chance(1, 2) {
 		sc.Knobs["recordseq"] = 1
 	}
+	if prop == "C25" && r.Chance(1, 8) {
+		// exhaustive sub-tier: a small tree, trunk delivered first, then EVERY
+		// order of the remaining blocks (k! orders), each on a fresh node
+		k := 4
+		if tier == "thorough" {
+			k = r.Range(4, 6)
+		}
+		sc.Knobs["exhaust"] = 1
+		ids := genTree(r, sc, 12, 2, k/2)
+		if len(ids) > 12+k {
+			ids = ids[:12+k]
+		}
+		for _, id := range ids[:12] {
+			sc.Ops = append(sc.Ops, simrt.Op{K: "dlv", I: []int64{int64(id), 0, 0}})
+		}
+		pa := simrt.Op{K: "permall"}
+		for _, id := range ids[12:] {
+			pa.I = append(pa.I, int64(id))
+		}
+		sc.Ops = append(sc.Ops, pa)
+		return sc
+	}
 	trunk := r.Range(12, 16)
 	forks := r.Range(1, 4)
 	maxBranch := 6
@@ -168,6 +190,9 @@ func (e *treeEngine) Execute(t *testing.T, ctx *simrt.Ctx) *simrt.Violation {
 }
 
 func (e *treeEngine) run(ctx *simrt.Ctx) *simrt.Violation {
+	if ctx.Sc.Knob("exhaust", 0) == 1 {
+		return e.runExhaustive(ctx)
+	}
 	sc := ctx.Sc
 	uid := fmt.Sprintf("%s-%d-%d", sc.Property, sc.Run, ctx.Seq())
 	recseq := sc.Knob("recordseq", 0) == 1
@@ -394,6 +419,144 @@ func checkSequenceLog(n *simnode.Node) *simrt.Violation {
 	}
 	if ls, err := n.Chain.GetStore().LoadBlockLastSequence(); err != nil || ls != last.Data {
 		return &simrt.Violation{Class: "seqlog", Sig: "last-seq", Detail: fmt.Sprintf("LoadBlockLastSequence=%d,%v API=%d", ls, err, last.Data)}
+	}
+	return nil
+}
+
+// runExhaustive delivers the trunk and then every permutation of the remaining
+// blocks, each to a fresh node, and compares every final state with the twin.
+func (e *treeEngine) runExhaustive(ctx *simrt.Ctx) *simrt.Violation {
+	sc := ctx.Sc
+	uid := fmt.Sprintf("%s-%d-%d", sc.Property, sc.Run, ctx.Seq())
+	recseq := sc.Knob("recordseq", 0) == 1
+	w := NewWorld(ctx, "fac-"+uid, simnode.Opts{})
+	defer w.Fac.Close()
+	defer w.Fac.Disk.Remove()
+	var trunk, rest []int
+	var maxH int64
+	for i := range sc.Ops {
+		op := &sc.Ops[i]
+		switch op.K {
+		case "blk":
+			if b := w.BuildOp(op); b != nil && b.Height > maxH {
+				maxH = b.Height
+			}
+		case "dlv":
+			if w.Blocks[int(op.Int(0))] != nil {
+				trunk = append(trunk, int(op.Int(0)))
+			}
+		case "permall":
+			for _, id := range op.I {
+				if w.Blocks[int(id)] != nil {
+					rest = append(rest, int(id))
+				}
+			}
+		}
+	}
+	if len(rest) > 6 {
+		rest = rest[:6]
+	}
+	delivered := map[int]bool{}
+	for _, id := range append(append([]int(nil), trunk...), rest...) {
+		delivered[id] = true
+	}
+	best, unique := w.Heaviest(delivered)
+	claim := best != nil && unique && best.Height >= 12
+	var txs [][]byte
+	seen := map[string]bool{}
+	for _, id := range w.Order {
+		if delivered[id] {
+			for _, tx := range w.Blocks[id].Block.Txs {
+				if h := tx.Hash(); !seen[string(h)] {
+					seen[string(h)] = true
+					txs = append(txs, h)
+				}
+			}
+		}
+	}
+	addrs := []string{w.Addr(-1)}
+	for a := 0; a < NAccounts; a++ {
+		addrs = append(addrs, w.Addr(a))
+	}
+	var want *View
+	if claim {
+		twin := simnode.New(simnode.Opts{ID: "twin-" + uid, StubMempool: true, EditToml: seqToml(recseq)})
+		simrt.Settle()
+		time.Sleep(2 * time.Second)
+		for _, b := range best.Chain() {
+			if ok, msg := Deliver(twin, b.Block, 0, "peerA"); !ok {
+				twin.Close()
+				return ctx.Violate("valid-block-rejected", "twin-in-order", "a fresh node rejected block id %d delivered in order: %s", b.ID, msg)
+			}
+		}
+		var v *simrt.Violation
+		want, v = Observe(twin, txs, addrs, maxH+1)
+		twin.Close()
+		twin.Disk.Remove()
+		if v != nil {
+			return v
+		}
+	}
+	perm := append([]int(nil), rest...)
+	n := len(perm)
+	count := 0
+	var visit func(k int) *simrt.Violation
+	visit = func(k int) *simrt.Violation {
+		if k == n {
+			count++
+			sut := simnode.New(simnode.Opts{ID: fmt.Sprintf("sut-%s-%d", uid, count), StubMempool: true, EditToml: seqToml(recseq)})
+			defer sut.Close()
+			defer sut.Disk.Remove()
+			simrt.Settle()
+			time.Sleep(2 * time.Second)
+			for _, id := range trunk {
+				Deliver(sut, w.Blocks[id].Block, 0, "peerA")
+			}
+			for _, id := range perm {
+				Deliver(sut, w.Blocks[id].Block, count%2, "peerB")
+				if b := w.Blocks[id]; b.Up != nil {
+					ctx.Probe("orphan")
+				}
+			}
+			time.Sleep(time.Second)
+			simrt.Settle()
+			if recseq {
+				if v := checkSequenceLog(sut); v != nil {
+					return v
+				}
+			}
+			if !claim {
+				return ChainInvariant(sut)
+			}
+			got, v := Observe(sut, txs, addrs, maxH+1)
+			if v != nil {
+				return v
+			}
+			if string(got.Last.Hash) != string(best.Hash) {
+				return ctx.Violate("not-heaviest", "best-chain-tip/exhaustive", "delivery order %v after the trunk: best chain tip is %x (height %d), the unique heaviest tip is block id %d (height %d)", perm, got.Last.Hash, got.Height, best.ID, best.Height)
+			}
+			if sig, detail := got.Diff(want); sig != "" {
+				return ctx.Violate("differs-from-twin", sig+"/exhaustive", "delivery order %v after the trunk: %s", perm, detail)
+			}
+			return nil
+		}
+		for i := k; i < n; i++ {
+			perm[k], perm[i] = perm[i], perm[k]
+			if v := visit(k + 1); v != nil {
+				return v
+			}
+			perm[k], perm[i] = perm[i], perm[k]
+		}
+		return nil
+	}
+	if v := visit(0); v != nil {
+		return v
+	}
+	ctx.Probes["exhaustive_trees"]++
+	ctx.Probes["exhaustive_orders"] += count
+	ctx.Probe("reorg")
+	if claim {
+		ctx.Probe("converge_checked")
 	}
 	return nil
 }
